@@ -12,6 +12,11 @@ import (
 
 // ---------- job JSON -> ast ----------
 
+// comment slices come out of encoding/json with spare capacity; clip it so that an append made by a
+// veneer never lands in an array this loader shares between builders (writes into shared spare
+// capacity are outside the C17 model; see checks/c17.py TRUSTED)
+func clipStrs(l []string) []string { return l[:len(l):len(l)] }
+
 type jDyn struct {
 	T string          `json:"t"`
 	V json.RawMessage `json:"v"`
@@ -187,7 +192,7 @@ func loadType(j *jType) ast.Type {
 		t.Kind = ast.KindStruct
 		st := &ast.StructType{Fields: []ast.StructField{}}
 		for _, f := range j.Fields {
-			st.Fields = append(st.Fields, ast.StructField{Name: f.Name, Comments: f.Comments, Type: loadType(f.Type), Required: f.Req})
+			st.Fields = append(st.Fields, ast.StructField{Name: f.Name, Comments: clipStrs(f.Comments), Type: loadType(f.Type), Required: f.Req})
 		}
 		t.Struct = st
 		for k, d := range j.Dh {
@@ -255,7 +260,7 @@ func loadSchema(j jSchema) *ast.Schema {
 	s.EntryPointType = loadType(j.EntryType)
 	for _, o := range j.Objects {
 		obj := ast.NewObject(j.Pkg, o.Name, loadType(o.Type))
-		obj.Comments = o.Comments
+		obj.Comments = clipStrs(o.Comments)
 		if o.SelfPkg != nil {
 			obj.SelfRef.ReferredPkg = *o.SelfPkg
 		}
